@@ -11,7 +11,7 @@ from vt.pyvc.termvc import Arr, lift, uf
 
 R = z3.RealSort()
 B = z3.BoolSort()
-TOQITO_RET = {"is_positive_semidefinite": B, "is_hermitian": B, "is_identity": B, "is_herm_preserving": B, "is_completely_positive": B, "is_trace_preserving": B, "kraus_to_choi": Arr, "trace_norm": R, "fidelity": R, "partial_transpose": Arr, "to_density_matrix": Arr, "is_ppt": z3.BoolSort(), "hilbert_schmidt_inner_product": R, "partial_trace": Arr, "purity": R}
+TOQITO_RET = {"is_positive_semidefinite": B, "is_hermitian": B, "is_identity": B, "is_herm_preserving": B, "is_completely_positive": B, "is_trace_preserving": B, "kraus_to_choi": Arr, "completely_bounded_trace_norm": R, "dual_channel": Arr, "trace_norm": R, "fidelity": R, "partial_transpose": Arr, "to_density_matrix": Arr, "is_ppt": z3.BoolSort(), "hilbert_schmidt_inner_product": R, "partial_trace": Arr, "purity": R}
 
 
 def pred(text, env):
@@ -221,5 +221,9 @@ CONTRACTS = {
                      lambda e: allclose(sub(mm(e["mat_1"], e["mat_2"]), mm(e["mat_2"], e["mat_1"])), z3.RealVal(0), z3.RealVal("1e-05"), z3.RealVal("1e-08")), "is_commuting(A, B) == allclose(A B - B A, 0) with numpy's default tolerances"),
     "is_density": ("toqito/matrix_props/is_density.py", [("mat", "arr")], [],
                    lambda e: z3.And(tq("is_positive_semidefinite", B, mat=e["mat"]), uf("np.isclose", B, tr(e["mat"]), z3.RealVal(1), z3.RealVal("1e-05"), z3.RealVal("1e-08"))), "is_density(X) == positive semidefinite and isclose(Tr X, 1)"),
+    "diamond_distance": ("toqito/channel_metrics/diamond_distance.py", [("choi_1", "arr"), ("choi_2", "arr")], [],
+                         lambda e: tq("completely_bounded_trace_norm", R, phi=sub(e["choi_1"], e["choi_2"])), "diamond_distance(J1, J2) == completely_bounded_trace_norm(J1 - J2) (un-halved, as the statement and the tests use it)"),
+    "completely_bounded_spectral_norm": ("toqito/channel_metrics/completely_bounded_spectral_norm.py", [("phi", "arr")], [],
+                                         lambda e: tq("completely_bounded_trace_norm", R, phi=tq("dual_channel", Arr, phi_op=e["phi"])), "cb spectral norm of Phi == cb trace norm of the dual map"),
     "purity": ("toqito/state_props/purity.py", [("rho", "arr")], ["is_density(rho)"], lambda e: uf("np.real", R, tr(uf("np.linalg.matrix_power[2]", Arr, e["rho"]))), "purity == Re Tr(rho^2)"),
 }
